@@ -435,6 +435,9 @@ pub fn execute_ct(exe: &Path, sc: &DScenario, dir: &Path) -> Vec<DFinding> {
             prelude: vec![],
             lex_probe: Some(probe.clone()),
             src_dir_mode: None,
+            // every build process runs in another working directory
+            // (an ancestor of the sources, their own directory, an unrelated one)
+            cwd: Some(match si % 3 { 0 => dir.to_path_buf(), 1 => src_dir.clone(), _ => dir.join("elsewhere/deep") }.to_str().unwrap().into()),
         };
         // Every other process builds a sibling first, as a build.rs with several grammars does:
         // the same sources with another storage type and a case-insensitive lexer, to other
@@ -742,7 +745,7 @@ pub fn check_main(tier: &str) -> i32 {
         seed,
         evaluations: count + ct_count,
         distinct_nontrivial: t.digests.len() as u64,
-        rule: format!("grammar i of stream VERIF_SEED (all yacc kinds incl. Eco with 0-4 implicit tokens; random %token/%left/%right/%nonassoc/%epp/%avoid_insert/%expect/%parse-param/actions) built in {nseeds} simulated processes with independent hash seeds, every public query of YaccGrammar/StateGraph/StateTable dumped and compared (conflicts as sets); {ct_count} further grammars run through the real compile-time builders in {ct_seeds} child processes each (sources re-stamped with another modification time per process; every other process first builds a sibling - same sources, another storage type, case-insensitive lexer - to other paths, as a build.rs with several grammars does) and the generated files compared byte for byte, together with what the lexer created at run time from the same source and flags yields on a probe text. Non-trivial = the grammar builds (table constructed); distinct = distinct grammar text."),
+        rule: format!("grammar i of stream VERIF_SEED (all yacc kinds incl. Eco with 0-4 implicit tokens; random %token/%left/%right/%nonassoc/%epp/%avoid_insert/%expect/%parse-param/actions) built in {nseeds} simulated processes with independent hash seeds, every public query of YaccGrammar/StateGraph/StateTable dumped and compared (conflicts as sets); {ct_count} further grammars run through the real compile-time builders in {ct_seeds} child processes each (sources re-stamped with another modification time per process, each process in another working directory; every other process first builds a sibling - same sources, another storage type, case-insensitive lexer - to other paths, as a build.rs with several grammars does) and the generated files compared byte for byte, together with what the lexer created at run time from the same source and flags yields on a probe text. Non-trivial = the grammar builds (table constructed); distinct = distinct grammar text."),
         samples: t.samples.clone(),
         extra,
         assumptions: vec!["std::collections::HashMap/HashSet obtain their keys through the libc symbol getrandom (self-tested)".into(), "generated files are compared without masking: all children share one lrpar/lrlex build, so the embedded build timestamp is identical".into()],
